@@ -510,11 +510,13 @@ def model_export_to_file(f, model=None, repo=None):
     if repo or hasattr(model, "_tx_model_repository"):
         if not repo:
             repo = model._tx_model_repository.all_models
-            if not repo:
-                _export(model)
         for m in repo:
             _export_subgraph(m)
             _export(m)
+        if model:
+            # The model itself may not be registered in its repository
+            # (e.g. a model loaded from a string): export it in any case.
+            _export(model)
     else:
         _export(model)
 
